@@ -203,6 +203,19 @@ def run_case(ctx, res, p):
                         detail={"shape": list(G0.shape), "expected": list(want)}, signature=f"C12:shape:gradient:{kind}")
         return
     G0k = G0.reshape(q, k, ds)
+    if kind == "T":
+        # the same call with the time as last column of x and no time argument (seeded change C12-f: the slice that drops
+        # the time entry cut the value-column axis for 2-D values)
+        try:
+            Gabs = np.asarray(pred.gradient(np.c_[Xq, np.broadcast_to(np.asarray(T, float), (q,))], jit=jit_modes[0]), float)
+        except Exception as e:
+            res.oracle_fail(f"{cname}.gradient(x with time as last column) raised {type(e).__name__}: {e}", p,
+                            signature="C12:gradient-time-column")
+            Gabs = None
+        if Gabs is not None and (Gabs.shape != G0.shape or Gabs.tobytes() != G0.tobytes()):
+            res.oracle_fail(f"{cname}.gradient(x with time as last column) differs from gradient(x, time)", p,
+                            detail={"shape": list(Gabs.shape), "expected": list(G0.shape)}, signature="C12:gradient-time-column")
+        res.count("gradient:time-column-form")
     h = float(p["fd_h"])
     noise = 16 * go.EPS * (vmass * scale_call)           # rounding of one call value
     fcall = (lambda A: call(pred, kind, A[:, :-1], A[:, -1]).reshape(q, -1)) if kind == "T" else \
